@@ -306,6 +306,26 @@ DepthOf(env) == IF "#depth" \in DOMAIN env THEN env["#depth"].v ELSE 0
 
 Bind(env, name, v) == [x \in DOMAIN env \cup {name} |-> IF x = name THEN v ELSE env[x]]
 
+\* Local variables (rule parameters, assigned names, function parameters, the labels
+\* of an asm block) are kept apart from the symbols: env["#l:<name>"], their names in
+\* env["#locals"].  A plain name reads the local first; a function body and a rule's
+\* production start with no locals but their own parameters - nothing of the caller's
+\* leaks in, nothing they assign leaks out.
+LKey(n) == "#l:" \o n
+LocalsOf(env) == IF "#locals" \in DOMAIN env THEN env["#locals"].set ELSE {}
+BindLocal(env, name, v) ==
+    [x \in DOMAIN env \cup {LKey(name), "#locals"} |->
+        IF x = LKey(name) THEN v
+        ELSE IF x = "#locals" THEN [t |-> "names", set |-> LocalsOf(env) \cup {name}]
+        ELSE env[x]]
+NoLocals(env) == [x \in (DOMAIN env \ {LKey(n) : n \in LocalsOf(env)}) \ {"#locals"} |-> env[x]]
+\* loc: a function name -> value
+RECURSIVE BindLocals(_, _)
+BindLocals(env, loc) ==
+    IF DOMAIN loc = {} THEN env
+    ELSE LET n == CHOOSE n \in DOMAIN loc : TRUE IN
+         BindLocals(BindLocal(env, n, loc[n]), [x \in DOMAIN loc \ {n} |-> loc[x]])
+
 R(v, env) == [v |-> v, env |-> env]
 
 RECURSIVE Eval(_, _)
@@ -336,7 +356,8 @@ Eval(e, env) ==
             \* context only, anything not yet known is Unknown instead of an error
             LET ctx == CtxOf(env)
                 missing == IF "#simple" \in DOMAIN env THEN UnknownV ELSE ErrV IN
-            IF e.lvl > Len(ctx) THEN R(missing, env)
+            IF e.lvl = 0 /\ Len(e.path) = 1 /\ LKey(e.path[1]) \in DOMAIN env THEN R(env[LKey(e.path[1])], env)
+            ELSE IF e.lvl > Len(ctx) THEN R(missing, env)
             ELSE LET key == JoinDots(SubSeq(ctx, 1, e.lvl) \o e.path) IN
                  R(IF key \in DOMAIN env THEN env[key] ELSE missing, env)
       [] e.k = "un" ->
@@ -380,7 +401,7 @@ Eval(e, env) ==
       [] e.k = "block" -> EvalSeq(e.es, 1, env, VoidV)
       [] e.k = "assign" ->
             LET x == Eval(e.e, env) IN
-            IF Propagates(x.v) THEN x ELSE R(VoidV, Bind(x.env, e.name, x.v))
+            IF Propagates(x.v) THEN x ELSE R(VoidV, BindLocal(x.env, e.name, x.v))
       [] e.k = "call" ->
             LET a == EvalArgs(e.args, 1, env, <<>>) IN
             IF ~a.ok THEN R(a.v, a.env)
@@ -391,11 +412,9 @@ Eval(e, env) ==
                  \* the parameters, one level deeper (the depth limit makes recursion an error)
                  LET f == env[FnKey(e.f)] IN
                  IF Len(f.params) # Len(a.vs) \/ DepthOf(env) >= MaxEvalDepth THEN R(ErrV, a.env)
-                 ELSE LET inner == [x \in DOMAIN env \cup {f.params[i] : i \in 1..Len(f.params)} \cup {"#depth"} |->
-                                       IF x = "#depth" THEN IntV(DepthOf(env) + 1, -1)
-                                       ELSE IF \E i \in 1..Len(f.params) : f.params[i] = x
-                                       THEN a.vs[CHOOSE i \in 1..Len(f.params) : f.params[i] = x]
-                                       ELSE env[x]]
+                 ELSE LET inner == BindLocals(Bind(NoLocals(env), "#depth", IntV(DepthOf(env) + 1, -1)),
+                                                [x \in {f.params[i] : i \in 1..Len(f.params)} |->
+                                                    a.vs[CHOOSE i \in 1..Len(f.params) : f.params[i] = x /\ \A j \in 1..Len(f.params) : f.params[j] = x => j <= i]])
                       IN R(Eval(f.body, inner).v, a.env)
       [] OTHER -> R(ErrV, env)
 
